@@ -384,13 +384,17 @@ theorem writeProbe_inv {min max : Nat} {s : Slots} {p : Probe} (hinv : SlotInv m
   · exact hinv t q hq
 
 theorem serialWrite_inv {min max : Nat} {s : Slots} {p : Probe} (hinv : SlotInv min max s)
-    (hv : validProbe min max p = true) : SlotInv min max (serialWrite s p) := by
-  intro t q hq
-  unfold serialWrite at hq
-  simp [validProbe] at hv
-  split at hq
-  · rename_i ht; simp at hq; subst hq; subst ht; exact ⟨rfl, hv.1, hv.2⟩
-  · exact hinv t q hq
+    (hv : validProbe min max p = true) : SlotInv min max (serialWrite s p) :=
+  writeProbe_inv hinv hv
+
+/-- writing into an empty slot: the two engines' rules coincide with a plain store -/
+theorem serialWrite_empty {s : Slots} {p : Probe} (h : s p.ttl = none) :
+    serialWrite s p = fun t => if t = p.ttl then some p else s t := by
+  funext t
+  unfold serialWrite writeProbe
+  by_cases ht : t = p.ttl
+  · subst ht; simp [h]
+  · simp [ht]
 
 theorem emptySlots_inv (min max : Nat) : SlotInv min max emptySlots := by
   intro t p h; simp [emptySlots] at h
